@@ -931,6 +931,33 @@ fn chk_foreign_rewrite(mode: &str, bytes: &[u8]) -> Result<(), String> {
     }
     Ok(())
 }
+/// the bytes of an archive must not depend on what the same thread wrote before (state kept between calls): a leaf-spilling
+/// archive is written, then a very large sparse archive whose write has to double the leaf size, then the first again
+fn chk_history_independent(mode: &str, ops: &str) -> Result<(), String> {
+    let before = run_to_bytes(mode, ops)?;
+    {
+        let mut st = fresh(mode == "async");
+        match &mut st {
+            St::S(p) => p.internal_compression = Compression::None,
+            St::A(p) => p.internal_compression = Compression::None,
+        }
+        for i in 0..5_200_000u64 {
+            let c = vec![(i % 251) as u8 + 1, (i / 251 % 251) as u8];
+            let r = match &mut st {
+                St::S(p) => p.add_tile(i << 39, c),
+                St::A(p) => p.add_tile(i << 39, c),
+            };
+            r.map_err(|e| format!("add_tile: {e}"))?;
+        }
+        let _ = write_bytes(st)?;
+    }
+    let after = run_to_bytes(mode, ops)?;
+    if before != after {
+        let pos = before.iter().zip(after.iter()).position(|(p, q)| p != q).unwrap_or(before.len().min(after.len()));
+        return Err(format!("the same archive serialises differently after the thread has written another, large archive ({} vs {} bytes, first difference at {pos})", before.len(), after.len()));
+    }
+    Ok(())
+}
 fn chk_xproc(mode: &str, ops: &str) -> Result<(), String> {
     // two fresh OS processes (differently seeded std hash maps) must produce the same bytes
     let exe = std::env::current_exe().map_err(|e| e.to_string())?;
@@ -1219,6 +1246,18 @@ pub fn gen(prop: &str, rng: &mut Rng, quick: bool, st: &mut Stats) -> Option<Vec
                     h.extend(probe_ops(&keys, rng, 40));
                     c.push(format!("hist {r} {}", h.join(";")));
                 }
+            }
+            // directories mixing leaf pointers and tile entries, pointers zero-coded after tile entries, nested mixing
+            for (name, bytes, pts, valid) in odd_archives(rng) {
+                if !valid {
+                    continue;
+                }
+                let hexb = hex_bytes(&bytes);
+                c.push(format!("chk_foreign sync {hexb}"));
+                c.push(format!("chk_foreign async {hexb}"));
+                let probes: Vec<String> = pts.iter().flat_map(|p| [format!("g:{p:x}"), format!("g:{:x}", p + 1)]).collect();
+                c.push(format!("hist sync o:s:u_u:{hexb};l;n;{}", probes.join(";")));
+                st.bump(&format!("odd_{}", name.replace(' ', "_")));
             }
             // single directories with more entries than any plausible internal cap (2^16 and beyond)
             for (k, n) in [65_536usize, 65_537, 70_001].iter().enumerate() {
@@ -1529,6 +1568,30 @@ pub fn gen(prop: &str, rng: &mut Rng, quick: bool, st: &mut Stats) -> Option<Vec
             }
         }
         "C11" => {
+            // unusual directory structures: overlapping runs, directories mixing pointers and tile entries (the theorem
+            // assumes no validity beyond 'ids under a pointer are >= the pointer's id')
+            for (name, bytes, pts, _valid) in odd_archives(rng) {
+                let hexb = hex_bytes(&bytes);
+                let mut rgs: Vec<Range> = vec![(Bound::Unbounded, Bound::Unbounded)];
+                for (i, a) in pts.iter().enumerate() {
+                    rgs.push((Bound::Included(*a), Bound::Included(*a)));
+                    rgs.push((Bound::Unbounded, Bound::Included(*a)));
+                    rgs.push((Bound::Excluded(*a), Bound::Unbounded));
+                    if let Some(b) = pts.get(i + 1) {
+                        rgs.push((Bound::Included(*a), Bound::Excluded(*b)));
+                        rgs.push((Bound::Excluded(*a), Bound::Included(*b)));
+                        rgs.push((Bound::Included(*a + 1), Bound::Included(*b + 1)));
+                    }
+                }
+                for (j, rg) in rgs.iter().enumerate() {
+                    let mode = if j % 2 == 0 { "sync" } else { "async" };
+                    c.push(format!("chk_partial {mode} {} {hexb}", range_tok(rg)));
+                    if j % 4 == 0 {
+                        c.push(format!("hist {mode} o:{}:{}:{hexb};l;n;g:{:x};g:0", &mode[..1], range_tok(rg), pts[0]));
+                    }
+                }
+                st.bump(&format!("odd_{}", name.replace(' ', "_")));
+            }
             let n = if quick { 20 } else { 120 };
             for k in 0..n {
                 let mode = if k % 2 == 0 { "sync" } else { "async" };
@@ -1620,6 +1683,9 @@ pub fn gen(prop: &str, rng: &mut Rng, quick: bool, st: &mut Stats) -> Option<Vec
                 c.push(format!("chk_startpos {} {p:x} - {}", if k % 2 == 0 { "sync" } else { "async" }, ops.join(";")));
                 st.bump("position_independence");
             }
+            // no state may survive between writes on one thread
+            c.push(format!("chk_history_independent sync {}", seeded_spill_ops(rng.next(), 5000, Compression::None)));
+            st.bump("write_then_large_write_then_write_again");
             // archives with leaf directories
             let ops = seeded_spill_ops(rng.next(), 4400, Compression::None);
             c.push(format!("chk_rewrite sync {ops}"));
@@ -1642,6 +1708,7 @@ pub fn run_chk(toks: &[&str]) -> Option<String> {
             let ops = seeded_spill_ops(unhex_u64(seed), unhex_u64(n) as usize, parse_comp(comp));
             guard_chk(|| chk_roundtrip(w, r, &ops))
         }
+        ["chk_history_independent", mode, ops] => guard_chk(|| chk_history_independent(mode, ops)),
         ["chk_foreign_rewrite", mode, b] => {
             let b = unhex_bytes(b);
             guard_chk(|| chk_foreign_rewrite(mode, &b))
